@@ -1680,6 +1680,7 @@ coap_send_internal(coap_session_t *session, coap_pdu_t *pdu) {
   uint8_t r;
   ssize_t bytes_written;
   coap_opt_iterator_t opt_iter;
+  coap_queue_t *node = NULL;
 
   pdu->session = session;
   if (pdu->code == COAP_RESPONSE_CODE(508)) {
@@ -1841,6 +1842,18 @@ coap_send_internal(coap_session_t *session, coap_pdu_t *pdu) {
   }
 #endif /* !COAP_DISABLE_TCP */
 
+  if (pdu->type == COAP_MESSAGE_CON && COAP_PROTO_NOT_RELIABLE(session->proto)) {
+    /*
+     * Get the retransmission node before anything is transmitted: a message
+     * that is on the wire must not be reported to the caller as not sent.
+     */
+    node = coap_new_node();
+    if (!node) {
+      coap_log_debug("coap_wait_ack: insufficient memory\n");
+      goto error;
+    }
+  }
+
 #if COAP_OSCORE_SUPPORT
   if (session->oscore_encryption &&
       !(pdu->type == COAP_MESSAGE_ACK && pdu->code == COAP_EMPTY_CODE)) {
@@ -1861,6 +1874,7 @@ coap_send_internal(coap_session_t *session, coap_pdu_t *pdu) {
 
   if (bytes_written == COAP_PDU_DELAYED) {
     /* do not free pdu as it is stored with session for later use */
+    coap_delete_node_lkd(node); /* the delay queue has its own node */
     return pdu->mid;
   }
   if (bytes_written < 0) {
@@ -1883,17 +1897,20 @@ coap_send_internal(coap_session_t *session, coap_pdu_t *pdu) {
   if (pdu->type != COAP_MESSAGE_CON
       || COAP_PROTO_RELIABLE(session->proto)) {
     coap_mid_t id = pdu->mid;
+    coap_delete_node_lkd(node);
     coap_delete_pdu(pdu);
     return id;
   }
 
-  coap_queue_t *node = coap_new_node();
   if (!node) {
-    coap_log_debug("coap_wait_ack: insufficient memory\n");
-    /* coap_send_pdu() has counted this Confirmable as in flight */
-    if (session->con_active)
-      session->con_active--;
-    goto error;
+    node = coap_new_node();
+    if (!node) {
+      coap_log_debug("coap_wait_ack: insufficient memory\n");
+      /* coap_send_pdu() has counted this Confirmable as in flight */
+      if (session->con_active)
+        session->con_active--;
+      goto error;
+    }
   }
 
   node->id = pdu->mid;
@@ -1903,6 +1920,7 @@ coap_send_internal(coap_session_t *session, coap_pdu_t *pdu) {
   node->timeout = coap_calc_timeout(session, r);
   return coap_wait_ack(session->context, session, node);
 error:
+  coap_delete_node_lkd(node); /* not yet linked to pdu or session */
   coap_delete_pdu(pdu);
   return COAP_INVALID_MID;
 }
